@@ -223,6 +223,128 @@ fn check_multi_g<B>(c: &MCase, ctx: &mut Ctx, mk: impl Fn() -> B, set: impl Fn(B
     Ok(())
 }
 
+/// several complete lives one after the other on one thread (each judged on its own): what an earlier build() saw —
+/// in particular the same five numbers in another arrangement, or a tuple differing in one field — must not leak
+/// into a later verdict (a memo of "the last validation", keyed by something coarser than the tuple itself)
+#[derive(Clone, Debug, Serialize, Deserialize)]
+pub struct SeqCase {
+    pub builds: Vec<Vec<(u8, X)>>,
+}
+pub fn check_seq(c: &SeqCase, ctx: &mut Ctx) -> Result<(), Failure> {
+    let mut fp = Fp::new("C16S");
+    let mut verdicts = vec![];
+    for (n, calls) in c.builds.iter().enumerate() {
+        let mut b = DataItem::builder();
+        let mut last: [Option<f64>; 5] = [None; 5];
+        for (id, x) in calls {
+            fp.u(*id as u64);
+            fp.f(x.0);
+            b = match id {
+                0 => b.open(x.0),
+                1 => b.high(x.0),
+                2 => b.low(x.0),
+                3 => b.close(x.0),
+                _ => b.volume(x.0),
+            };
+            last[(*id).min(4) as usize] = Some(x.0);
+        }
+        fp.u(0xB17D);
+        verdicts.push(verdict(&last).is_ok());
+        judge(&last, b.build(), &format!("build {} of the sequence {:?}", n, c.builds), ctx)?;
+    }
+    if verdicts.len() >= 2 && verdicts.windows(2).any(|w| w[0] != w[1]) {
+        ctx.nontrivial(fp);
+        ctx.label("verdict_changes_between_consecutive_builds");
+    }
+    ctx.label_n("builds_judged", verdicts.len() as u64);
+    Ok(())
+}
+
+/// many builders alive at once (far more than three): all created first, fields set round-robin, built in a
+/// generated order — storage that is pooled, recycled or indexed per thread gives out after some number of them
+#[derive(Clone, Debug, Serialize, Deserialize)]
+pub struct ManyCase {
+    pub alive: usize,
+    pub seed: u64,
+    pub reverse: bool,
+}
+pub fn check_many(c: &ManyCase, ctx: &mut Ctx) -> Result<(), Failure> {
+    check_many_g(
+        c,
+        ctx,
+        DataItem::builder,
+        |b, id, x| match id {
+            0 => b.open(x),
+            1 => b.high(x),
+            2 => b.low(x),
+            3 => b.close(x),
+            _ => b.volume(x),
+        },
+        |b| b.build(),
+    )
+}
+fn check_many_g<B>(c: &ManyCase, ctx: &mut Ctx, mk: impl Fn() -> B, set: impl Fn(B, u8, f64) -> B, fin: impl Fn(B) -> Result<DataItem, TaError>) -> Result<(), Failure> {
+    let k = c.alive.max(1);
+    let mut st = c.seed | 1;
+    let mut bs: Vec<Option<B>> = (0..k).map(|_| Some(mk())).collect();
+    let mut last: Vec<[Option<f64>; 5]> = vec![[None; 5]; k];
+    // five passes: pass j sets field perm[j] of every builder (each builder its own consistent-or-not tuple)
+    let p = perm((splitmix(&mut st) % 120) as usize);
+    for &id in p.iter() {
+        for i in 0..k {
+            let u = unit(&mut st);
+            let base = 10.0 + i as f64;
+            // mostly consistent tuples; one builder in 7 gets a crossed bar, one in 11 misses its volume
+            let x = match id {
+                0 => base + 0.25,
+                1 => if i % 7 == 3 { base - 1.0 } else { base + 1.0 + u },
+                2 => base - 0.5 * u,
+                3 => base + 0.5,
+                _ => 100.0 * u,
+            };
+            if id == 4 && i % 11 == 5 {
+                continue;
+            }
+            let b = bs[i].take().unwrap();
+            bs[i] = Some(set(b, id, x));
+            last[i][id as usize] = Some(x);
+        }
+    }
+    let order: Vec<usize> = if c.reverse { (0..k).rev().collect() } else { (0..k).collect() };
+    for i in order {
+        let b = bs[i].take().unwrap();
+        judge(&last[i], fin(b), &format!("builder {} of {} alive at once (seed {:#x})", i, k, c.seed), ctx)?;
+    }
+    let mut fp = Fp::new("C16K");
+    fp.u(k as u64);
+    fp.u(c.seed);
+    fp.u(c.reverse as u64);
+    ctx.nontrivial(fp);
+    ctx.label_n("builds_judged", k as u64);
+    Ok(())
+}
+
+fn seq_strategy() -> BoxedStrategy<SeqCase> {
+    let val = prop_oneof![4 => (0usize..8).prop_map(|i| [1.0, 2.0, 3.0, 0.0, 4.0, -1.0, 2.5, 10.0][i]), 3 => -50.0f64..150.0, 1 => (0usize..11).prop_map(|i| LATTICE[i])];
+    // a first tuple, then 1..6 relatives: two fields exchanged, one field changed, the same tuple again, another order
+    (proptest::array::uniform5(val.clone()), vec((0u8..5, 0u8..5, 0u8..4, val, 0usize..120), 1..6))
+        .prop_map(|(t0, steps)| {
+            let mut t = t0;
+            let mut builds = vec![(0..5u8).map(|j| (j, X(t[j as usize]))).collect::<Vec<_>>()];
+            for (a, b, kind, v, pk) in steps {
+                match kind {
+                    0 => t.swap(a as usize, b as usize),
+                    1 => t[a as usize] = v,
+                    2 => {}
+                    _ => t.rotate_left(1 + (b as usize) % 4),
+                }
+                builds.push(perm(pk).iter().map(|&j| (j, X(t[j as usize]))).collect());
+            }
+            SeqCase { builds }
+        })
+        .boxed()
+}
+
 fn multi_strategy() -> BoxedStrategy<MCase> {
     let val = prop_oneof![5 => -50.0f64..150.0, 2 => (0usize..11).prop_map(|i| LATTICE[i]), 3 => (0usize..4).prop_map(|i| [1.0, 2.0, 3.0, 0.0][i])];
     let op = prop_oneof![12 => (0u8..3, 0u8..5, val).prop_map(|(k, id, x)| MOp::Set(k, id, X(x))), 1 => (0u8..3, any::<bool>()).prop_map(|(k, bld)| MOp::Finish(k, bld))];
@@ -280,6 +402,7 @@ fn random_strategy() -> BoxedStrategy<Case> {
 pub fn run(g: &mut Global) {
     g.rule = "exhaustive, seed-independent: all 11^5 = 161 051 tuples over the lattice {-inf,-2,-1,-0.0,0.0,1,2,3,+inf,NaN} extended by a sign-bit-set NaN, each under all 120 setter orders (1.2e7 builds, both tiers); all 31 proper subsets of the five setters for a 1000-tuple subset; repeated setter calls (last wins); random: consistent bars by construction and arbitrary call sequences; several_builders: up to three builders alive on one thread with interleaved setter calls, builders dropped without build(), slots reused. Oracle: reference predicate (Incomplete iff a setter was never called, else Invalid iff not(low<=open, low<=close, low<=high, high>=open, high>=close, volume>=0), else Ok) and bit-exact getters, clone == item. Non-trivial = complete tuples at the accept/reject boundary (changing one field to a lattice neighbour flips the verdict) and incomplete call sequences with at least four calls; distinct by hash of the call sequence.".into();
     g.assumptions = vec![];
+    g.rule.push_str(" rearranged_after_twin: every lattice tuple is built and then at once the same five numbers with two fields exchanged (all 10 exchanges; all 119 rearrangements for every 7th tuple), the second build judged by its own arrangement; related_sequences: 2..7 complete builds in a row on one thread, each a relative of the previous one (two fields exchanged, one field changed, the same tuple, rotated), each judged on its own — non-trivial when consecutive verdicts differ; many_builders_alive: 4 ... 70 000 builders created before any is built, fields set round-robin, built in creation or reverse order.");
     let all_orders = true; // 1.2e7 builds take well under a second on 16 cores: both tiers
     let _ = Tier::Quick;
     if all_orders {
@@ -344,6 +467,41 @@ pub fn run(g: &mut Global) {
     // several builders alive at once, builders dropped unbuilt, slots reused: each build() is judged by the calls
     // made on that builder only (no state shared between builders through statics, thread-locals or pools)
     g.random("several_builders", g.tier.pick(300_000, 5_000_000), &multi_strategy, &check_multi);
+    // every lattice tuple, then at once the same five numbers with two fields exchanged (all 10 exchanges), and
+    // for every 7th tuple all 119 rearrangements: the second build is judged by its own arrangement
+    g.exhaustive(
+        "rearranged_after_twin",
+        161_051 * 10 + 23_007 * 119,
+        &|i| {
+            let (t, pi) = if i < 161_051 * 10 {
+                let t = tuple(i / 10);
+                const SW: [(usize, usize); 10] = [(0, 1), (0, 2), (0, 3), (0, 4), (1, 2), (1, 3), (1, 4), (2, 3), (2, 4), (3, 4)];
+                let (a, b) = SW[(i % 10) as usize];
+                let mut q = [0u8, 1, 2, 3, 4];
+                q.swap(a, b);
+                (t, q)
+            } else {
+                let j = i - 161_051 * 10;
+                (tuple((j / 119) * 7), perm((j % 119) as usize + 1))
+            };
+            let first: Vec<(u8, X)> = (0..5u8).map(|j| (j, X(t[j as usize]))).collect();
+            let second: Vec<(u8, X)> = (0..5u8).map(|j| (j, X(t[pi[j as usize] as usize]))).collect();
+            SeqCase { builds: vec![first, second] }
+        },
+        &check_seq,
+    );
+    g.random("related_sequences", g.tier.pick(200_000, 4_000_000), &seq_strategy, &check_seq);
+    let seed = g.seed;
+    g.exhaustive(
+        "many_builders_alive",
+        12 * 2 * 4,
+        &move |i| {
+            const K: [usize; 12] = [4, 16, 17, 63, 64, 65, 66, 129, 257, 1000, 4097, 70_000];
+            let mut s = seed ^ (i + 5).wrapping_mul(0x9E3779B97F4A7C15);
+            ManyCase { alive: K[(i % 12) as usize], reverse: (i / 12) % 2 == 1, seed: splitmix(&mut s) }
+        },
+        &check_many,
+    );
     // long chains of setter calls (up to 600 per build): "last value wins" must not depend on how many
     // calls were made; one field is left out in a third of the chains
     g.random(
